@@ -14,25 +14,41 @@ def seq_prop(profile, nq, nt, mc=None, more=None):
             'trace': COLUMN_TRACE, 'assumptions': []}
 
 
+
+def mc_store(quick, thorough, **kw):
+    d = {'module': 'MCColumn', 'cfg': 'MC_Store.cfg', 'constants': {'FAIL': 'FALSE', 'ROLLBACK': 'TRUE', 'HASMODE': 'any', 'MAXOPS': '2'},
+         'quick': quick, 'thorough': thorough}
+    d.update(kw)
+    return d
+
+
+def mc_conc(quick, thorough, **kw):
+    d = {'module': 'MCColumn', 'cfg': 'MC_Conc.cfg',
+         'constants': {'FAIL': 'FALSE', 'ROLLBACK': 'FALSE', 'MAXOPS': '2', 'LAYOUTS': 'Layout02', 'TRANSPORT': 'chan', 'ATEND': 'TRUE'},
+         'quick': quick, 'thorough': thorough}
+    d.update(kw)
+    return d
+
+
+# exhaustive configurations shared by several properties (each property lists the ones that decide it)
+MC_STORE_STRICT = mc_store({'MAXOPS': '2'}, {'MAXOPS': '3', 'HASMODE': 'all'})
+MC_STORE_ASBUILT = mc_store({'MAXOPS': '2'}, {'MAXOPS': '2', 'FAIL': 'TRUE'}, asbuilt=True)
+MC_STORE_NEG = mc_store({'MAXOPS': '2'}, {'MAXOPS': '2'}, asbuilt=True, expect_violation=True, thorough_only=True)
+MC_ATOMIC = mc_store({'MAXOPS': '2', 'FAIL': 'TRUE'}, {'MAXOPS': '3', 'FAIL': 'TRUE', 'HASMODE': 'all'})
+MC_CONC_STRICT = mc_conc({}, {'LAYOUTS': 'LayoutSome', 'ATEND': 'FALSE'}, timeout=2400)
+MC_CONC_LOG = mc_conc({'TRANSPORT': 'log'}, {'TRANSPORT': 'log', 'LAYOUTS': 'LayoutSome'}, thorough_only=True, timeout=2400)
+MC_CONC_ASBUILT = mc_conc({}, {'ROLLBACK': 'TRUE'}, asbuilt=True, thorough_only=True, timeout=2400)
+MC_CONC_NEG = mc_conc({}, {}, asbuilt=True, expect_violation=True, thorough_only=True)
+
 PROPS = {
-    'C02': seq_prop('c02', 60, 1500, more=[fam('conc', 'c02', 16, 300)]),
-    'C03': seq_prop('c03', 60, 1500),
-    'C06': seq_prop('c06', 60, 1500, more=[fam('conc', 'c06', 24, 400), fam('conc', 'c06dfs', 2, 16)]),
-    'C09': {'level': 'model_checking', 'mc': [], 'families': [fam('conc', 'c09', 32, 500)], 'trace': COLUMN_TRACE, 'assumptions': []},
-    'C11': seq_prop('c11', 60, 1500, more=[fam('conc', 'c11', 24, 400)]),
-    'C15': seq_prop('c15', 60, 1500, more=[fam('conc', 'c15', 24, 400)]),
-    'C16': seq_prop('c16', 60, 1500),
-    'C19': seq_prop('c19', 60, 1500),
-    'C01': {
-        'level': 'model_checking',
-        'mc': [],
-        'families': [
-            {'family': 'seq', 'profile': 'c01', 'n_quick': 60, 'n_thorough': 1500},
-        ],
-        'trace': COLUMN_TRACE,
-        'assumptions': [
-            'the harness token table maps tokens to concrete values by exact bit / byte comparison (trusted)',
-            'values of merge columns are small integers / short strings so that TLC can compute with them',
-        ],
-    },
+    'C01': seq_prop('c01', 150, 2500, mc=[MC_STORE_STRICT, MC_STORE_ASBUILT, MC_STORE_NEG]),
+    'C02': seq_prop('c02', 120, 2000, mc=[MC_ATOMIC], more=[fam('conc', 'c02', 16, 300)]),
+    'C03': seq_prop('c03', 150, 2500, mc=[MC_STORE_STRICT, MC_STORE_ASBUILT]),
+    'C06': seq_prop('c06', 60, 1500, mc=[MC_CONC_STRICT, MC_CONC_LOG, MC_CONC_ASBUILT, MC_CONC_NEG],
+                    more=[fam('conc', 'c06', 24, 400), fam('conc', 'c06dfs', 1, 16)]),
+    'C09': {'level': 'model_checking', 'mc': [MC_CONC_STRICT], 'families': [fam('conc', 'c09', 48, 800)], 'trace': COLUMN_TRACE, 'assumptions': []},
+    'C11': seq_prop('c11', 100, 2000, mc=[MC_CONC_STRICT, MC_CONC_ASBUILT], more=[fam('conc', 'c11', 32, 500)]),
+    'C15': seq_prop('c15', 100, 2000, mc=[MC_CONC_STRICT], more=[fam('conc', 'c15', 32, 500)]),
+    'C16': seq_prop('c16', 150, 2500, mc=[MC_STORE_STRICT]),
+    'C19': seq_prop('c19', 150, 2500, mc=[MC_STORE_STRICT]),
 }
